@@ -17,6 +17,9 @@ from core import HARNESS, REPO, Violation, require, scratch_dir
 
 ID = "C08"
 LEVEL = "exploration"
+LEVEL_TEXT = (
+    "Bit-identity of digests across in-process repeats, worker counts, fresh interpreters with other hash seeds and every order of the returned models, on every generated history. Covers the seeds / permutations generated on this platform."
+)
 TECHNIQUE = (
     "Hypothesis-generated run histories: the same analysis (read_pin -> brew -> assign_confidence incl. protein "
     "level) repeated in one process, with other worker counts, in fresh interpreters with different PYTHONHASHSEED, "
